@@ -380,6 +380,15 @@ impl<'a> Pr<'a> {
             let s = self.osp();
             l.push_str(&format!("{}' c{}", s, n));
         }
+        // blanks or a tab at the very end of the line (in front of the line break)
+        if !is_data && self.lay.space_mode != 0 && self.rnd(6) == 0 {
+            self.changed += 1;
+            l.push_str(match self.rnd(3) {
+                0 => " ",
+                1 => "\t",
+                _ => "  ",
+            });
+        }
         self.lines.push(l);
         let row = self.lines.len() as u32;
         if let Some(p) = path {
